@@ -1,5 +1,5 @@
 ---- MODULE MC_t_match_fm ----
 EXTENDS MCOFWire
-TheCases == MatchIn("flow_mod", MFlagsAll \cup MBits(BitsT) \cup MTypes \cup MVals, "t")
+TheCases == MatchIn("flow_mod", MFlagsAll(0) \cup MBits(BitsT) \cup MTypes(0) \cup MVals(0), "t")
 TheAround == AroundBoth
 ====
